@@ -82,6 +82,21 @@ def generate(rnd, tier, index=0):
                 op["container"] = "series_auto"
                 if rnd.random() < 0.5 or d > 1:
                     op["rows"] = op["rows"][:1]
+    if rnd.random() < 0.15:
+        # buffer reuse: the replica's caller keeps one pre-allocated array per argument and overwrites it in place for the
+        # next call (fixed batch / query sizes, so the very same ndarray objects come back with other contents). Training
+        # buffers only for policies that do not keep the training arrays (no neighbourhood policy): a bandit that stores
+        # the caller's array by reference is not covered by any property, and is not probed.
+        n0, m0 = rnd.randint(2, 4), rnd.randint(1, 3)
+        how = "reuse:" + rnd.choice(["ndarray", "ndarray_F", "list", "series_frame"])
+        for op in ops:
+            if op["op"] in ("fit", "partial_fit") and cfg["np"] is None:
+                if len(op["rows"]) >= n0:
+                    op["rows"] = op["rows"][:n0]
+                op["container"] = how
+            elif op["op"] in ("predict", "expect") and op.get("Q"):
+                op["Q"] = op["Q"][:m0]
+                op["container"] = how
     # later training batches may carry dyadic fractions while the first one is all integers: the history starts as an int
     # array for the list-fed primary and as a float array for a replica fed float containers (sums stay exact in binary64)
     first_train = next((i for i, o in enumerate(ops) if o["op"] in ("fit", "partial_fit")), None)
